@@ -408,11 +408,17 @@ func genNumericEvent(t *rapid.T) ev.Event {
 		}
 		return ev.Event{K: ev.DFloat, DF: d}
 	default:
-		if rapid.IntRange(0, 2).Draw(t, "bboundary") == 0 {
+		if rapid.Bool().Draw(t, "bboundary") {
 			// whole numbers at the integer-width boundaries carried as big decimal floats: coefficient around
 			// 2^63 / 2^64 / 19-20 digits, either sign, exponent 0 or small
 			d := &apd.Decimal{Exponent: int32(rapid.SampledFrom([]int{0, 0, 0, 1, 3, 19}).Draw(t, "bbexp"))}
 			d.Coeff.Abs(gen.BigIntValue(t, "bbcoeff"))
+			if rapid.Bool().Draw(t, "bbexplicit") {
+				d.Coeff.SetString(rapid.SampledFrom([]string{"9223372036854775806", "9223372036854775807", "9223372036854775808", "9223372036854775809",
+					"9223372036854775817", "12000000000000000001", "18446744073709551614", "18446744073709551615", "18446744073709551616", "18446744073709551617",
+					"9999999999999999999", "10000000000000000000", "10000000000000000001", "1234567890123456789", "9876543210987654321", "4294967295", "4294967296",
+					"65535", "65536", "255", "256", "127", "128"}).Draw(t, "bbval"), 10)
+			}
 			d.Negative = rapid.Bool().Draw(t, "bbneg") && d.Coeff.Sign() != 0
 			return ev.Event{K: ev.BigDFloat, BDF: d}
 		}
